@@ -578,7 +578,9 @@ fn swap_query(w: &World, msg: &[u8]) -> Result<Binary, String> {
             };
             let out = swap_quote(w, &from, &to, offer_asset.amount.u128())?;
             Ok(Binary::from(
-                serde_json::to_vec(&json!({"return_amount": out.to_string(), "spread_amount": "0", "commission_amount": "0"}))
+                // return_amount is what the swap pays (net); the pool also reports what it kept
+                // (informational fields: 0.3 % commission, 0.1 % spread of the gross amount)
+                serde_json::to_vec(&json!({"return_amount": out.to_string(), "spread_amount": (out / 1000).to_string(), "commission_amount": (out * 3 / 1000).to_string()}))
                     .unwrap(),
             ))
         }
